@@ -57,7 +57,7 @@ const (
 
 func (Driver) Run(c *core.Ctx) {
 	hist = history{}
-	nv := int64(c.N(2500, 94000)) // x3 constraints: 40 k x 3 quick, 6 M x 3 thorough over all batches
+	nv := int64(c.N(5000, 94000)) // x3 constraints: 40 k x 3 quick, 6 M x 3 thorough over all batches
 	nm := int64(c.N(300, 3000))
 	for i := int64(0); i < nv; i++ {
 		if !c.Want(i) {
